@@ -31,11 +31,11 @@
 package main
 
 import (
-	"bytes"
 	"encoding/json"
 	"errors"
 	"fmt"
 	"io"
+	"reflect"
 	"runtime"
 	"strconv"
 	"strings"
@@ -95,20 +95,6 @@ func payloadS(n int) string {
 	return unsafe.String(&payloadB(n)[0], n)
 }
 
-// how the writer goroutine issues an op
-const (
-	viaDirect      = iota // pw.Write / pw.WriteString
-	viaIOWriteStr         // io.WriteString(pw, s)
-	viaCopyWholly         // io.Copy(pw, bytes.Reader): the reader's WriteTo hands pw one Write
-	viaCopyChunked        // io.Copy(pw, plain reader): 32 KiB chunks, several Writes per op
-)
-
-var viaNames = []string{"direct", "io.WriteString", "io.Copy(WriterTo)", "io.Copy(chunked)"}
-
-type plainReader struct{ r io.Reader } // hides WriterTo
-
-func (p plainReader) Read(b []byte) (int, error) { return p.r.Read(b) }
-
 // Op is one call of the writer goroutine.
 type Op struct {
 	Str   bool   `json:"str,omitempty"`   // WriteString instead of Write
@@ -116,7 +102,7 @@ type Op struct {
 	Beh   int    `json:"beh,omitempty"`   // behaviour of the wrapped writer during this op
 	Cut   uint32 `json:"cut,omitempty"`   // selects the short / partial count
 	Yield int    `json:"yield,omitempty"` // runtime.Gosched() calls of the writer after the op (stimulus)
-	Via   int    `json:"via,omitempty"`   // viaDirect .. viaCopyChunked (deep scenarios)
+	Via   int    `json:"via,omitempty"`   // how the op is issued: viaDirect .. (callers.go)
 	Block int    `json:"block,omitempty"` // > 0: the wrapped writer parks until a helper goroutine releases it after Block yields
 }
 
@@ -140,10 +126,12 @@ type Consumer struct {
 
 // Case is one replayable scenario.
 type Case struct {
-	WKind string   `json:"wkind"`             // label of the wrapped writer: full|shortErr|shortNil|fail0|failN|mixed
-	SW    bool     `json:"sw"`                // wrapped writer implements io.StringWriter
-	RF    bool     `json:"rf,omitempty"`      // wrapped writer also implements io.ReaderFrom (deep scenarios)
-	Prof  string   `json:"profile,omitempty"` // deep scenarios: history | pow2 | boundary | stream
+	WKind string   `json:"wkind"`               // label of the wrapped writer: full|shortErr|shortNil|fail0|failN|mixed
+	SW    bool     `json:"sw"`                  // wrapped writer implements io.StringWriter
+	RF    bool     `json:"rf,omitempty"`        // wrapped writer also implements io.ReaderFrom (deep scenarios)
+	Prof  string   `json:"profile,omitempty"`   // deep scenarios: history | pow2 | boundary | stream; "callers"
+	OSW   string   `json:"os_writer,omitempty"` // callers: wrapped writer backed by the OS (tmpfile, devnull, devfull, brokenpipe, pipequota)
+	Quota int      `json:"quota,omitempty"`     // pipequota: bytes the pipe's reader takes before it goes away
 	Ops   []Op     `json:"ops"`
 	Cons  Consumer `json:"consumer"`
 	Procs int      `json:"procs,omitempty"` // GOMAXPROCS the case was observed under (replay hint)
@@ -179,11 +167,8 @@ func (cs Case) nops() int {
 }
 
 func (o Op) method() string {
-	switch o.Via {
-	case viaIOWriteStr:
-		return "io.WriteString"
-	case viaCopyWholly, viaCopyChunked:
-		return "io.Copy"
+	if o.Via > 0 && o.Via < len(viaMethod) {
+		return viaMethod[o.Via]
 	}
 	if o.Str {
 		return "WriteString"
@@ -209,7 +194,9 @@ type sink struct {
 	calls    int
 	strCalls int
 	perBeh   [5]int
-	block    int // > 0: park in the next call until released (deep scenarios)
+	opSize   int    // payload size of the op in flight (ReadFrom behaviours)
+	scratch  []byte // ReadFrom chunk buffer
+	block    int    // > 0: park in the next call until released (deep scenarios)
 	blocked  int
 	rfCalls  int
 	lastBeh  int // effective behaviour of the last call
@@ -255,11 +242,24 @@ func (s *sink) do(l int, viaString bool) (int, error) {
 			n, err, eff = 0, errFail, behFail0
 		}
 	}
+	s.calls--
+	if viaString {
+		s.strCalls--
+	}
+	s.account(n, err, eff, viaString)
+	return n, err
+}
+
+// account records one result the wrapped writer reported (the ground truth).
+func (s *sink) account(n int, err error, eff int, viaString bool) {
+	s.calls++
+	if viaString {
+		s.strCalls++
+	}
 	s.total += n
 	s.prefix = append(s.prefix, s.total)
 	s.perBeh[eff]++
 	s.lastBeh, s.lastN, s.lastErr = eff, n, err
-	return n, err
 }
 
 type sinkW struct{ s *sink } // io.Writer only
@@ -270,13 +270,6 @@ type sinkSW struct{ s *sink } // io.Writer + io.StringWriter
 
 func (w sinkSW) Write(p []byte) (int, error)       { return w.s.do(len(p), false) }
 func (w sinkSW) WriteString(x string) (int, error) { return w.s.do(len(x), true) }
-
-func (s *sink) readFrom(r io.Reader) (int64, error) {
-	s.rfCalls++
-	n, _ := io.Copy(io.Discard, r)
-	k, err := s.do(int(n), false)
-	return int64(k), err
-}
 
 type sinkRF struct{ s *sink } // io.Writer + io.ReaderFrom
 
@@ -396,29 +389,8 @@ func writerLoop(s *scen) {
 		s.progress.Store(int64(i))
 		s.sk.beh, s.sk.cut, s.sk.block = op.Beh, op.Cut, op.Block
 		c0 := s.sk.calls
-		var n int
-		var err error
-		switch {
-		case op.Via == viaIOWriteStr:
-			where = "WriteString"
-			n, err = io.WriteString(pw, payloadS(op.Size))
-		case op.Via == viaCopyWholly:
-			where = "Write"
-			var n64 int64
-			n64, err = io.Copy(pw, bytes.NewReader(payloadB(op.Size)))
-			n = int(n64)
-		case op.Via == viaCopyChunked:
-			where = "Write"
-			var n64 int64
-			n64, err = io.Copy(pw, plainReader{bytes.NewReader(payloadB(op.Size))})
-			n = int(n64)
-		case op.Str:
-			where = "WriteString"
-			n, err = pw.WriteString(payloadS(op.Size))
-		default:
-			where = "Write"
-			n, err = pw.Write(payloadB(op.Size))
-		}
+		s.sk.opSize = op.Size
+		n, err := s.issue(op, &where)
 		where = "Size"
 		s.logs = append(s.logs, opLog{n: n, err: err, size: pw.Size(), sum: s.sk.total,
 			beh: s.sk.lastBeh, wn: s.sk.lastN, werr: s.sk.lastErr, wcalls: s.sk.calls - c0})
@@ -848,7 +820,9 @@ type stats struct {
 	scenLong, longOps, longInter            int64
 	// deep (thorough-only) coverage
 	maxTotal, crossed31, crossed32, boundaryHits, recvAbove31 int64
-	via                                                       [4]int64
+	via                                                       [viaCount]int64
+	osScen                                                    map[string]int64
+	rfPathOps                                                 int64
 	blockedCalls, rfCalls, burstyScen, refetchScen, lazyScen  int64
 	rfScen, multiCallOps                                      int64
 	prof                                                      map[string]int64
@@ -858,7 +832,7 @@ type stats struct {
 
 func newStats() *stats {
 	return &stats{scenKind: map[string]int64{}, scenKindInter: map[string]int64{}, patterns: map[uint64]struct{}{},
-		prof: map[string]int64{}, sizes: map[int]struct{}{}}
+		prof: map[string]int64{}, sizes: map[int]struct{}{}, osScen: map[string]int64{}}
 }
 
 func errStr(e error) string {
@@ -890,7 +864,7 @@ func runOnce(cs Case, st *stats) (res result) {
 	long := cs.LongN > 0 && len(cs.Ops) == 0
 	cs = cs.expand()
 	for i := range cs.Ops {
-		if cs.Ops[i].Size < 0 || cs.Ops[i].Size > hugeSize || cs.Ops[i].Beh < 0 || cs.Ops[i].Beh > behFailN || cs.Ops[i].Via < 0 || cs.Ops[i].Via > viaCopyChunked {
+		if cs.Ops[i].Size < 0 || cs.Ops[i].Size > hugeSize || cs.Ops[i].Beh < 0 || cs.Ops[i].Beh > behFailN || cs.Ops[i].Via < 0 || cs.Ops[i].Via >= viaCount {
 			return result{inconclusive: fmt.Sprintf("malformed case: op %d out of range", i)}
 		}
 	}
@@ -906,6 +880,14 @@ func runOnce(cs Case, st *stats) (res result) {
 		w = sinkRF{s.sk}
 	case cs.SW:
 		w = sinkSW{s.sk}
+	}
+	if cs.OSW != "" {
+		ow, cleanup, err := openOSSink(cs.OSW, cs.Quota, s.sk)
+		if err != nil {
+			return result{inconclusive: "cannot open the OS-backed wrapped writer: " + err.Error()}
+		}
+		defer cleanup()
+		w = ow
 	}
 	func() {
 		defer func() {
@@ -1138,6 +1120,9 @@ func (s *scen) deepStats(st *stats, total int) {
 	if cs.RF {
 		st.rfScen++
 	}
+	if cs.OSW != "" {
+		st.osScen[cs.OSW]++
+	}
 }
 
 // runCase executes a scenario; an inconclusive watchdog is retried twice.
@@ -1160,7 +1145,7 @@ type mon struct{}
 func (mon) Name() string { return "progress" }
 
 func (mon) Level(string) (string, string) {
-	return "exploration", "seeded random scenarios {wrapped writer kind full/shortErr/shortNil/fail0/failN/mixed × io.StringWriter or not} × {op list of Write/WriteString, sizes 0/1/7/4096/1MiB and random, ≤ 50 ops} × {consumer absent until Close, eager, slow, late start, stops-then-resumes}, run as real goroutines at GOMAXPROCS 1/2/4/16 plain and under -race; oracle offline over the writer log (n, err, Size(), Σn of the wrapped writer) and the consumer log; non-blocking decided from a goroutine snapshot, never from time; plus long scenarios (20000..100000 writes of 1..16 bytes next to an eager consumer) and lifetime batches (one or two small writes then Close, consumer busy during the last write, its first receive aligned with Close by a spin barrier with seeded offsets on either side); Write/Close never returning is decided from two identical consecutive goroutine snapshots of an at-rest state; thorough adds deep scenarios: seeded histories of 1000..8000 ops, sizes 2^k-1/2^k/2^k+1 up to 64 MiB, write sequences whose prefix sums land exactly on 2^31-1/2^31/2^31+1 and likewise around 2^32 and 2^33 (Size() is an int; totals up to 8 GiB), ops issued through io.WriteString / io.Copy (one op = several wrapped Writes), wrapped writers that also implement io.ReaderFrom or park inside Write until a helper releases them, consumers that are bursty, arrive at the last write or exactly at Close, fetch Status() late or again before every receive, long scenarios of up to 500000 writes, all at GOMAXPROCS 1/2/4/16, 1 or 4 scenarios at once, plain and under -race; distinct_nontrivial = distinct scenario shapes (writer kind, ops with method/size/behaviour, consumer script) with at least one op and a non-zero total"
+	return "exploration", "seeded random scenarios {wrapped writer kind full/shortErr/shortNil/fail0/failN/mixed × io.StringWriter or not} × {op list of Write/WriteString, sizes 0/1/7/4096/1MiB and random, ≤ 50 ops} × {consumer absent until Close, eager, slow, late start, stops-then-resumes}, run as real goroutines at GOMAXPROCS 1/2/4/16 plain and under -race; oracle offline over the writer log (n, err, Size(), Σn of the wrapped writer) and the consumer log; non-blocking decided from a goroutine snapshot, never from time; plus long scenarios (20000..100000 writes of 1..16 bytes next to an eager consumer) and lifetime batches (one or two small writes then Close, consumer busy during the last write, its first receive aligned with Close by a spin barrier with seeded offsets on either side); Write/Close never returning is decided from two identical consecutive goroutine snapshots of an at-rest state; callers scenarios send the data the way real callers do - io.Copy / io.CopyN / io.CopyBuffer from sources without WriteTo (io.LimitReader, plain struct reader, os.Pipe read end, *os.File), bytes.Buffer / strings.Reader WriteTo, io.WriteString, fmt.Fprintf, bufio.Writer (Write/WriteString/ReadFrom + Flush) - over wrapped writers that do or do not implement io.ReaderFrom, scripted (short / failing in the middle of a copy, reporting what they really consumed) or backed by the OS (temp file, /dev/null, /dev/full, broken pipe, pipe whose reader leaves after a quota), ground truth = every n the wrapped writer's Write/WriteString/ReadFrom returned; the method set of *ProgressWriter is recorded (reflect) as an observed set; thorough adds deep scenarios: seeded histories of 1000..8000 ops, sizes 2^k-1/2^k/2^k+1 up to 64 MiB, write sequences whose prefix sums land exactly on 2^31-1/2^31/2^31+1 and likewise around 2^32 and 2^33 (Size() is an int; totals up to 8 GiB), ops issued through io.WriteString / io.Copy (one op = several wrapped Writes), wrapped writers that also implement io.ReaderFrom or park inside Write until a helper releases them, consumers that are bursty, arrive at the last write or exactly at Close, fetch Status() late or again before every receive, long scenarios of up to 500000 writes, all at GOMAXPROCS 1/2/4/16, 1 or 4 scenarios at once, plain and under -race; distinct_nontrivial = distinct scenario shapes (writer kind, ops with method/size/behaviour, consumer script) with at least one op and a non-zero total"
 }
 
 func (mon) Assumptions(string) []string {
@@ -1177,10 +1162,11 @@ type shardArgs struct {
 	Part    int  `json:"part"`
 	Count   int  `json:"count"`
 	Workers int  `json:"workers"`
-	Long    bool `json:"long,omitempty"` // long scenarios: 20000..100000 tiny writes, eager consumer
-	Life    bool `json:"life,omitempty"` // lifetime batch: Workers pairs x Count lifetimes each
-	Deep    bool `json:"deep,omitempty"` // deep scenarios (deep.go), thorough only
-	XL      bool `json:"xl,omitempty"`   // thorough: every 6th long scenario has 200000..500000 writes
+	Long    bool `json:"long,omitempty"`    // long scenarios: 20000..100000 tiny writes, eager consumer
+	Life    bool `json:"life,omitempty"`    // lifetime batch: Workers pairs x Count lifetimes each
+	Deep    bool `json:"deep,omitempty"`    // deep scenarios (deep.go), thorough only
+	Callers bool `json:"callers,omitempty"` // callers scenarios (callers.go)
+	XL      bool `json:"xl,omitempty"`      // thorough: every 6th long scenario has 200000..500000 writes
 }
 
 var procsCycle = []int{1, 2, 4, 16}
@@ -1237,6 +1223,24 @@ func (mon) Plan(prop, tier string, seed int64) []drv.Shard {
 	{
 		a, _ := json.Marshal(shardArgs{Part: 5000, Count: lifePer / 20, Workers: 1, Life: true})
 		out = append(out, drv.Shard{Name: "life-race-p4-w1", Args: a, Secs: secs, Race: true, Env: []string{"GOMAXPROCS=4"}})
+	}
+	// callers scenarios (callers.go): io.Copy & co, wrapped writers with / without ReadFrom, OS-backed ones
+	callShards, callPer, callRace, callRacePer := 4, 150, 1, 60
+	if thorough {
+		callShards, callPer, callRace, callRacePer = 8, 20000, 4, 2000
+	}
+	for p := 0; p < callShards; p++ {
+		procs := procsCycle[p%len(procsCycle)]
+		workers := 1 + 3*(p/len(procsCycle)%2)
+		a, _ := json.Marshal(shardArgs{Part: 8000 + p, Count: callPer, Workers: workers, Callers: true})
+		out = append(out, drv.Shard{Name: fmt.Sprintf("callers-%d-p%d-w%d", p, procs, workers), Args: a, Secs: secs,
+			Env: []string{fmt.Sprintf("GOMAXPROCS=%d", procs)}})
+	}
+	for p := 0; p < callRace; p++ {
+		procs := []int{4, 2, 16, 1}[p%4]
+		a, _ := json.Marshal(shardArgs{Part: 9000 + p, Count: callRacePer, Workers: 1, Callers: true})
+		out = append(out, drv.Shard{Name: fmt.Sprintf("callers-race-%d-p%d-w1", p, procs), Args: a, Secs: secs, Race: true,
+			Env: []string{fmt.Sprintf("GOMAXPROCS=%d", procs)}})
 	}
 	if thorough {
 		// deep scenarios (deep.go): GOMAXPROCS 1/2/4/16, alone and 4 at once, plain and -race
@@ -1304,6 +1308,14 @@ func (mn mon) Run(sh drv.Shard, c *drv.Ctx) {
 		a.Workers = 1
 	}
 	procs := runtime.GOMAXPROCS(0)
+	// informational: the method set of *ProgressWriter as built (a new ReadFrom / WriteTo / ... changes
+	// which path io.Copy and friends take)
+	if t := reflect.TypeOf((*ioutil.ProgressWriter)(nil)); t != nil {
+		for i := 0; i < t.NumMethod(); i++ {
+			m := t.Method(i)
+			c.SetAdd("ProgressWriter_method_set(reflect)", m.Name+"("+strings.TrimPrefix(strings.TrimPrefix(m.Type.String(), "func(*ioutil.ProgressWriter"), ", "))
+		}
+	}
 	if a.Life {
 		runLifeShard(sh, a, c, procs)
 		return
@@ -1331,6 +1343,8 @@ func (mn mon) Run(sh drv.Shard, c *drv.Ctx) {
 					}
 				} else if a.Deep {
 					cs = genDeep(r)
+				} else if a.Callers {
+					cs = genCallers(r)
 				} else {
 					cs = genCase(r)
 				}
@@ -1374,25 +1388,34 @@ func (mn mon) Run(sh drv.Shard, c *drv.Ctx) {
 		c.Add("bytes_reported", st.bytesReported)
 		c.Add("scen_long", st.scenLong)
 		if len(st.prof) > 0 {
+			pre := "deep"
+			if a.Callers {
+				pre = "callers"
+			}
+			for k, n := range st.osScen {
+				c.Add(pre+"_scen_wrapped_os_"+k, n)
+			}
 			for k, n := range st.prof {
-				c.Add("deep_scen_"+k, n)
+				c.Add(pre+"_scen_"+k, n)
 			}
-			c.MaxOf("deep_total_bytes_in_one_scenario", st.maxTotal)
-			c.Add("deep_scen_total_at_or_above_2^31", st.crossed31)
-			c.Add("deep_scen_total_at_or_above_2^32", st.crossed32)
-			c.Add("deep_prefix_sums_exactly_at_2^31|32|33_plus_minus_1", st.boundaryHits)
-			c.Add("deep_values_received_at_or_above_2^31", st.recvAbove31)
+			c.MaxOf(pre+"_total_bytes_in_one_scenario", st.maxTotal)
+			c.Add(pre+"_scen_total_at_or_above_2^31", st.crossed31)
+			c.Add(pre+"_scen_total_at_or_above_2^32", st.crossed32)
+			c.Add(pre+"_prefix_sums_exactly_at_2^31|32|33_plus_minus_1", st.boundaryHits)
+			c.Add(pre+"_values_received_at_or_above_2^31", st.recvAbove31)
 			for v, n := range st.via {
-				c.Add("deep_ops_via_"+viaNames[v], n)
+				if n > 0 || a.Callers {
+					c.Add(pre+"_ops_via_"+viaNames[v], n)
+				}
 			}
-			c.Add("deep_ops_with_several_wrapped_calls", st.multiCallOps)
-			c.Add("deep_wrapped_calls_that_blocked", st.blockedCalls)
-			c.Add("deep_wrapped_ReadFrom_calls", st.rfCalls)
-			c.Add("deep_scen_wrapped_is_ReaderFrom", st.rfScen)
-			c.Add("deep_scen_bursty_consumer", st.burstyScen)
-			c.Add("deep_scen_status_refetched_every_receive", st.refetchScen)
-			c.Add("deep_scen_status_fetched_late", st.lazyScen)
-			c.Add("deep_distinct_op_sizes(sum over workers)", int64(len(st.sizes)))
+			c.Add(pre+"_ops_with_several_wrapped_calls", st.multiCallOps)
+			c.Add(pre+"_wrapped_calls_that_blocked", st.blockedCalls)
+			c.Add(pre+"_wrapped_ReadFrom_calls", st.rfCalls)
+			c.Add(pre+"_scen_wrapped_is_ReaderFrom", st.rfScen)
+			c.Add(pre+"_scen_bursty_consumer", st.burstyScen)
+			c.Add(pre+"_scen_status_refetched_every_receive", st.refetchScen)
+			c.Add(pre+"_scen_status_fetched_late", st.lazyScen)
+			c.Add(pre+"_distinct_op_sizes(sum over workers)", int64(len(st.sizes)))
 		}
 		c.Add("long_ops", st.longOps)
 		c.Add("long_intermediate_values_received", st.longInter)
@@ -1496,6 +1519,18 @@ func (mon) Finish(prop, tier string, m *drv.Merged) (inc []string) {
 		"wrapped_calls_shortErr", "wrapped_calls_shortNil", "wrapped_calls_fail0", "wrapped_calls_failN", "ops_WriteString_on_StringWriter", "ops_WriteString_on_plain_Writer",
 		"scen_stopresume_received_before_and_after", "scen_long", "long_intermediate_values_received",
 		"lifetimes_checked", "life_first_receive_started_before_Close_entered", "life_first_receive_started_after_Close_entered"} {
+		if m.Sum[k] == 0 {
+			inc = append(inc, "observed nothing of: "+k)
+		}
+	}
+	need := []string{"callers_scen_callers", "callers_scen_wrapped_is_ReaderFrom", "callers_ops_with_several_wrapped_calls"}
+	for _, v := range viaNames[1:] {
+		need = append(need, "callers_ops_via_"+v)
+	}
+	for _, k := range osKinds {
+		need = append(need, "callers_scen_wrapped_os_"+k)
+	}
+	for _, k := range need {
 		if m.Sum[k] == 0 {
 			inc = append(inc, "observed nothing of: "+k)
 		}
